@@ -168,11 +168,16 @@ func (s *histogram[N]) delta(dest *metricdata.Aggregation) int {
 
 		if !s.noSum {
 			hDPts[i].Sum = val.total
+		} else {
+			// A reused data point may hold another stream\'s value.
+			hDPts[i].Sum = 0
 		}
 
 		if !s.noMinMax {
 			hDPts[i].Min = metricdata.NewExtrema(val.min)
 			hDPts[i].Max = metricdata.NewExtrema(val.max)
+		} else {
+			hDPts[i].Min, hDPts[i].Max = metricdata.Extrema[N]{}, metricdata.Extrema[N]{}
 		}
 
 		collectExemplars(&hDPts[i].Exemplars, val.res.Collect)
@@ -224,11 +229,16 @@ func (s *histogram[N]) cumulative(dest *metricdata.Aggregation) int {
 
 		if !s.noSum {
 			hDPts[i].Sum = val.total
+		} else {
+			// A reused data point may hold another stream\'s value.
+			hDPts[i].Sum = 0
 		}
 
 		if !s.noMinMax {
 			hDPts[i].Min = metricdata.NewExtrema(val.min)
 			hDPts[i].Max = metricdata.NewExtrema(val.max)
+		} else {
+			hDPts[i].Min, hDPts[i].Max = metricdata.Extrema[N]{}, metricdata.Extrema[N]{}
 		}
 
 		collectExemplars(&hDPts[i].Exemplars, val.res.Collect)
